@@ -203,9 +203,13 @@ def _run(prop, units, tier, seed, work, t0):
                                    'assembler_selfcheck': asm.selfcheck_ok, 'binds': asm.binds})
             if tier == 'thorough' and res.status == 'verified':
                 extra_info[name] = thorough_verus(u, base, seed, work, None)
-        elif u['backend'] == 'kani':
-            from .kani_backend import run_kani_unit
-            kr = run_kani_unit(u, tier, seed, work)
+        elif u['backend'] in ('kani', 'native'):
+            if u['backend'] == 'kani':
+                from .kani_backend import run_kani_unit
+                kr = run_kani_unit(u, tier, seed, work)
+            else:
+                from .native_backend import run_native_unit
+                kr = run_native_unit(u, tier, seed, work)
             if kr['undecided']:
                 raise Undecided('%s: %s' % (name, kr['undecided']))
             obligations += kr['obligations']
@@ -224,7 +228,7 @@ def _run(prop, units, tier, seed, work, t0):
             evidence_units.append(kr['evidence'])
             if kr.get('extra'):
                 extra_info[name] = kr['extra']
-            if tier == 'thorough' and not kr['failures']:
+            if tier == 'thorough' and not kr['failures'] and u['backend'] == 'kani':
                 from .kani_backend import thorough_kani
                 ti = thorough_kani(u, seed, work)
                 extra_info[name] = ti
@@ -248,11 +252,17 @@ def _run(prop, units, tier, seed, work, t0):
         print(line)
     from .replay import write_replay
     seen = set()
+    # a concrete input found by a bounded native unit also serves the deductive unit that names it in `witness_from`
+    donors = {}
+    for u, base, f in violations:
+        if u['backend'] == 'native' and getattr(f, 'witness', None):
+            donors.setdefault(u['name'], (u, f))
     for u, base, f in violations:
         if f.obligation in seen:
             continue
         seen.add(f.obligation)
-        path, found = write_replay(prop, u, base, f, work, tier)
+        donor = donors.get(u.get('witness_from', ''))
+        path, found = write_replay(prop, u, base, f, work, tier, donor=donor)
         print('VIOLATION property=%s replay=%s%s' % (prop, path, '' if found else ' no-failing-input-found'))
         print('  failed obligation: %s  [%s] at %s' % (f.obligation, f.message, f.where))
         rc = 1
